@@ -113,8 +113,8 @@ def launcher(extra):
 
 def strace_run(exe, d, action, inject=None, log=None, extra=None):
     cmd = ["strace", "-o", log or "/dev/null"]
-    if inject:
-        cmd += ["-e", "inject=" + inject]
+    for i in ([inject] if isinstance(inject, str) else (inject or [])):
+        cmd += ["-e", "inject=" + i]
     cmd += ["-E", "SNOOPY_TEST_LD_SO_PRELOAD_PATH=" + PRE, "-E", "SNOOPY_TEST_LIBSNOOPY_SO_PATH=" + pl.P_MAIN.decode()] + launcher(extra) + [exe, action]
     p = subprocess.run(cmd, cwd=d, env={"PATH": "/usr/bin:/bin"}, stdin=subprocess.DEVNULL, stdout=subprocess.DEVNULL, stderr=subprocess.DEVNULL, timeout=60)
     return p.returncode
@@ -242,6 +242,36 @@ def with_states(run, cs, news):
     return out
 
 
+def inj_list(f):
+    """strace -e inject= expressions of a fault: {kind kill|error, syscall, when, errno, persist, first: {syscall, when, errno}}"""
+    if not f:
+        return []
+    out = []
+    if f.get("first"):
+        g = f["first"]
+        out.append("%s:error=%s:when=%d" % (g["syscall"], g["errno"], g["when"]))
+    if f["kind"] == "kill":
+        out.append("%s:signal=SIGKILL:when=%d" % (f["syscall"], f["when"]))
+    else:
+        out.append("%s:error=%s:when=%d%s" % (f["syscall"], f["errno"], f["when"], "+" if f.get("persist") else ""))
+    return out
+
+
+def fault_str(f):
+    if not f:
+        return "undisturbed run"
+    s = ("killed on entry of %s #%d" % (f["syscall"], f["when"])) if f["kind"] == "kill" else \
+        ("%s on entry of %s #%d%s" % (f["errno"], f["syscall"], f["when"], " and every later one" if f.get("persist") else ""))
+    if f.get("first"):
+        g = f["first"]
+        s = "%s at %s #%d, then %s" % (g["errno"], g["syscall"], g["when"], s)
+    return s
+
+
+READ_ERRNOS = ["EIO"]
+FIRST_FAULTS = [("rename", 1, "EBUSY"), ("rename", 1, "EXDEV")]      # a refused rename, then a second fault in whatever the code does next
+
+
 def one_case(run, exe, trace_model, idx, action, content, new, extra=None):
     """returns dict(trace_ok, observed, violations[list of dict], runs)"""
     d = os.path.join(run.scratch, "c20-%d" % idx)
@@ -296,15 +326,45 @@ def one_case(run, exe, trace_model, idx, action, content, new, extra=None):
             for k in range(1, n + 1):
                 for e in ERRNOS + MORE_ERRNOS.get(nm, []):
                     plan.append(("error", nm, k, e))
-    for (kind, nm, k, e) in plan:
+        if nm in ("read", "pread64") and not extra:
+            # read faults while the old content is loaded: once, and from that call on (a file below the stdio block is ONE read)
+            for k in range(1, n + 1):
+                for e in READ_ERRNOS:
+                    plan.append(("error", nm, k, e))
+                    plan.append(("error+", nm, k, e))
+    faults = [{"kind": "kill" if kind == "kill" else "error", "syscall": nm, "when": k, "errno": e, "persist": kind == "error+", "first": None} for (kind, nm, k, e) in plan]
+    # --- double faults: the rename is refused, then the process is killed / a write-type call fails in what follows
+    if not extra and changed and len(new or b"") < 200:
+        for (fn_, fk, fe) in FIRST_FAULTS:
+            first = {"syscall": fn_, "when": fk, "errno": fe}
+            setup(d, content, extra)
+            log2 = os.path.join(run.scratch, "c20-trace2-%d.log" % idx)
+            strace_run(exe, d, action, inject=["%s:error=%s:when=%d" % (fn_, fe, fk)], log=log2, extra=extra)
+            res["runs"] += 1
+            after = state(d)
+            if (after or b"") not in allowed:
+                res["violations"].append({"why": "preload file is neither the old nor the new content", "fault": {"kind": "error", "syscall": fn_, "when": fk, "errno": fe, "persist": False, "first": None},
+                                          "after": hexs(after), "rc": 0})
+                continue
+            c2, seen_first, cnt2 = parse_trace(log2), False, {}
+            for (nm, _, _) in c2:
+                cnt2[nm] = cnt2.get(nm, 0) + 1
+                if nm == fn_ and cnt2[nm] == fk:
+                    seen_first = True
+                    continue
+                if not seen_first:
+                    continue            # before the first fault a second one is a single fault, covered above
+                faults.append({"kind": "kill", "syscall": nm, "when": cnt2[nm], "errno": None, "persist": False, "first": first})
+                if nm in WRITE_TYPE and nm != "close":
+                    for e in ("ENOSPC", "EIO"):
+                        faults.append({"kind": "error", "syscall": nm, "when": cnt2[nm], "errno": e, "persist": False, "first": first})
+    for f in faults:
         setup(d, content, extra)
-        inj = "%s:signal=SIGKILL:when=%d" % (nm, k) if kind == "kill" else "%s:error=%s:when=%d" % (nm, e, k)
-        rc = strace_run(exe, d, action, inject=inj, extra=extra)
+        rc = strace_run(exe, d, action, inject=inj_list(f), extra=extra)
         res["runs"] += 1
         after = state(d)
         if (after or b"") not in allowed:
-            res["violations"].append({"why": "preload file is neither the old nor the new content", "fault": {"kind": kind, "syscall": nm, "when": k, "errno": e},
-                                      "after": hexs(after), "rc": rc})
+            res["violations"].append({"why": "preload file is neither the old nor the new content", "fault": f, "after": hexs(after), "rc": rc})
             if len(res["violations"]) >= 3:
                 break
     shutil.rmtree(d, ignore_errors=True)
@@ -336,14 +396,19 @@ def run_plan(run, exe, idx, plan, new):
     d = os.path.join(run.scratch, "c20-corpus-%d" % idx)
     os.makedirs(d, exist_ok=True)
     setup(d, content, extra)
-    inj = None if kind == "none" else ("%s:signal=SIGKILL:when=%d" % (nm, k) if kind == "kill" else "%s:error=%s:when=%d" % (nm, e, k))
-    rc = strace_run(exe, d, action, inject=inj, extra=extra)
+    # kind: none | kill | error | error+ (persisting), optionally preceded by a first fault "<syscall>.<instance>.<errno>>"
+    first = None
+    if ">" in kind:
+        a, kind = kind.split(">", 1)
+        fs, fk, fe = a.split(".")
+        first = {"syscall": fs, "when": int(fk), "errno": fe}
+    f = None if kind == "none" else {"kind": "kill" if kind == "kill" else "error", "syscall": nm, "when": k, "errno": e, "persist": kind == "error+", "first": first}
+    rc = strace_run(exe, d, action, inject=inj_list(f), extra=extra)
     after = state(d)
     shutil.rmtree(d, ignore_errors=True)
     fits = extra and extra.get("fsize") is not None and extra["fsize"] >= len(new or b"") and kind == "none"
     if (after or b"") not in (content or b"", new or b"") or (fits and (after or b"") != (new or b"")):
-        return {"why": "preload file is neither the old nor the new content", "fault": None if kind == "none" else {"kind": kind, "syscall": nm, "when": k, "errno": e},
-                "after": hexs(after), "rc": rc}
+        return {"why": "preload file is neither the old nor the new content", "fault": f, "after": hexs(after), "rc": rc}
     return None
 
 
@@ -389,22 +454,22 @@ def check(run):
     seen = set()
     for (pl_, pn, v) in corpus_bad:
         f = v["fault"]
-        sig = "atomic:%s" % (f["kind"] if f else "final")
+        sig = "atomic:%s" % ((("double-" if f.get("first") else "") + ("read-" if f["syscall"] in ("read", "pread64") else "") + f["kind"]) if f else "final")
         if sig in seen:
             continue
         seen.add(sig)
-        what = ("%s on entry of %s #%d" % ("killed" if f["kind"] == "kill" else f["errno"], f["syscall"], f["when"])) if f else "undisturbed run"
+        what = fault_str(f)
         run.violation(sig, "spec_violation", "%s: snoopyctl %s%s, %s (corpus case); old=%r new=%r found=%r" % (v["why"], pl_[0], extra_str(pl_[6]), what, (pl_[1] or b"")[:60], (pn or b"")[:60], (unhex(v["after"]) or b"")[:80]),
                       {"failing_input": {"action": pl_[0], "content": hexs(pl_[1]), "fault": f, "state": extra_enc(pl_[6])}, "old": hexs(pl_[1]), "new": hexs(pn), "after": v["after"]})
         nv += 1
     for (a, c, new, extra), r in zip(full, results):
         for v in r["violations"]:
             f = v["fault"]
-            sig = "atomic:%s" % (f["kind"] if f else "final")
+            sig = "atomic:%s" % ((("double-" if f.get("first") else "") + ("read-" if f["syscall"] in ("read", "pread64") else "") + f["kind"]) if f else "final")
             if sig in seen:
                 continue
             seen.add(sig)
-            what = ("%s on entry of %s #%d" % ("killed" if f["kind"] == "kill" else f["errno"], f["syscall"], f["when"])) if f else "undisturbed run"
+            what = fault_str(f)
             run.violation(sig, "spec_violation", "%s: snoopyctl %s%s, %s; old=%r new=%r found=%r" % (v["why"], a, extra_str(extra), what, (c or b"")[:60], (new or b"")[:60], (unhex(v["after"]) or b"")[:80]),
                           {"failing_input": {"action": a, "content": hexs(c), "fault": f, "state": extra_enc(extra)}, "old": hexs(c), "new": hexs(new), "after": v["after"]})
             nv += 1
@@ -453,9 +518,7 @@ def replay(run, path):
     d = os.path.join(run.scratch, "c20-replay")
     os.makedirs(d, exist_ok=True)
     setup(d, c, extra)
-    inj = None
-    if f:
-        inj = "%s:signal=SIGKILL:when=%d" % (f["syscall"], f["when"]) if f["kind"] == "kill" else "%s:error=%s:when=%d" % (f["syscall"], f["errno"], f["when"])
+    inj = inj_list(f)
     rc = strace_run(exe, d, a, inject=inj, log=os.path.join(run.scratch, "replay-t.log"), extra=extra)
     after = state(d)
     print("action:", a, "fault:", f, "initial state:", extra_str(extra) or "clean directory")
